@@ -22,6 +22,10 @@ THEOREMS = [
     "RedunModel.C28.complete_predicts_partial",
     "RedunModel.SchedCore.reachable_dry",
     "RedunModel.SchedCore.dry_real_lockstep",
+    "RedunModel.C28.complete_predicts",
+    "RedunModel.C28.resolved_root_had_no_miss",
+    "RedunModel.SchedCore.reachable_dryTok",
+    "RedunModel.SchedCore.no_miss_of_root_resolved",
 ]
 TRUSTED = base.TRUSTED + [
     "the backend state before the run is abstracted to one flag per call (miss / single-reduction entry / ultimate-reduction entry); the harness "
@@ -34,10 +38,16 @@ RULE = ("generated job-tree programs; backend state = empty | after a first (pos
         "event by event with the model, then a REAL run on another copy is the oracle: dry run submits nothing; if it returns v the real run "
         "returns v with zero submissions; if it stops (DryRunResult) the real run submits at least one job. distinct = distinct (program, "
         "backend history, edit); non-trivial = backend not empty")
-LEVEL_TEXT = ("Lean 4 proof for all programs and schedules that a dry run never submits a job, has nothing in flight and consumes no limits, "
-              "and the lock-step theorem: as long as every job of the dry run is served by a twin or the cache, the real run passes through "
-              "exactly the same states and submits nothing (complete_predicts_partial). PARTIAL: that a dry run whose root settles had no miss, "
-              "and the converse for incomplete dry runs, are checked by the dry-then-real oracle on real sqlite backends, not proved.")
+LEVEL_TEXT = ("Lean 4 proof for all programs and schedules that a dry run never submits a job, has nothing in flight and consumes no limits; "
+              "the lock-step theorem (complete_predicts_partial): as long as every job of the dry run is served by a twin or the cache, the real "
+              "run passes through exactly the same states and submits nothing; and now the FULL prediction theorem for completed dry runs "
+              "(complete_predicts): if the dry run's root job is resolved after n events (not finished earlier) then no job took the 'would run' "
+              "exit - proved from the dry-run invariant reachable_dryTok (nothing is registered or collapsed in a dry run, every job has at most "
+              "one queued event, a settled job has none, Promise.all counts exactly the pending children, a job resolves only after all its "
+              "children resolved) and the fact that a job that misses never resolves (no_miss_of_root_resolved) - hence the real run from the "
+              "same backend state goes through the same n states, resolves its root and submits nothing. Still PARTIAL for the converse "
+              "direction (an incomplete dry run implies that the real run submits at least one job): checked by the dry-then-real oracle on "
+              "real sqlite backends, not proved.")
 LEVEL_NOTE = "task functions are never called in a dry run is observed through the interposed executor (no submission => no call)"
 TECHNIQUE = base.TECHNIQUE
 
